@@ -60,47 +60,105 @@ Proof. intros; apply bitZ_b2z; auto. Qed.
 Lemma bit_neg_index a i : i < 0 -> bit a i = 0.
 Proof. intros; unfold bit; rewrite Z.testbit_neg_r by lia; reflexivity. Qed.
 
-(* ------------------------------------------------------------------ one equation per generated primitive *)
+(* ------------------------------------------------------------------ one equation per generated primitive.
+   The proofs NORMALISE the generated body instead of matching its syntax, so that behaviour-preserving rewrites of the
+   Python (x % (1<<n) for x & ((1<<n)-1), redundant masks, swapped operands of & | ^, extra locals, one put per branch
+   or a single put after the branches, inverted / early-return conditions, fused statements) leave them provable:
+     - locals: cbv zeta;  Wire_put w v, x & ((1<<n)-1), ((1<<n)-1) & x, x % (1<<n)  ->  trunc n x;  trunc n (trunc n x) -> trunc n x
+     - x & 1, 1 & x, x % 2  ->  b2z (Z.odd x);  conditions are case-split (destruct), never matched syntactically. *)
+Lemma trunc_idem_any w v : trunc w (trunc w v) = trunc w v.
+Proof. unfold trunc. rewrite <- Z.land_assoc, Z.land_diag. reflexivity. Qed.
+Lemma land_mask_r x n : Z.land x (Z.shiftl 1 n - 1) = trunc n x.
+Proof. reflexivity. Qed.
+Lemma land_mask_l x n : Z.land (Z.shiftl 1 n - 1) x = trunc n x.
+Proof. rewrite Z.land_comm. reflexivity. Qed.
+Lemma mod_shiftl_trunc x n : 0 <= n -> x mod Z.shiftl 1 n = trunc n x.
+Proof. intros; rewrite Z.shiftl_1_l, trunc_mod by lia; reflexivity. Qed.
+Lemma mod_pow_trunc x n : 0 <= n -> x mod 2 ^ n = trunc n x.
+Proof. intros; rewrite trunc_mod by lia; reflexivity. Qed.
+Lemma land_1_odd_l a : Z.land 1 a = b2z (Z.odd a).
+Proof. rewrite Z.land_comm. apply land_1_odd. Qed.
+Lemma mod2_odd a : a mod 2 = b2z (Z.odd a).
+Proof. rewrite Zmod_odd. destruct (Z.odd a); reflexivity. Qed.
+Lemma bitZ_odd a i : bitZ a i = b2z (Z.odd (Z.shiftr a i)).
+Proof. apply land_1_odd. Qed.
+
+Ltac norm_masks :=
+  cbv zeta; unfold py_shl, py_shr in *;
+  change Wire_put with trunc in *;
+  rewrite ?land_mask_r, ?land_mask_l;
+  rewrite ?mod_shiftl_trunc by lia;
+  rewrite ?trunc_idem_any.
+Ltac norm_lsb := rewrite ?land_1_odd, ?land_1_odd_l, ?mod2_odd.
+(* closes  trunc w X = trunc w Y  when X and Y differ by commutativity of one bitwise operator, or not at all *)
+Ltac close_comm :=
+  first [ reflexivity
+        | f_equal; solve [ apply Z.land_comm | apply Z.lor_comm | apply Z.lxor_comm | reflexivity | lia ] ].
+
+Lemma fold_left_ext {A B} (f g : A -> B -> A) l a : (forall x y, f x y = g x y) -> fold_left f l a = fold_left g l a.
+Proof. intros H. revert a. induction l as [|y l IH]; intros a; cbn; [reflexivity|]. rewrite H. apply IH. Qed.
+
+Lemma Wire_put_is_trunc w v : Wire_put w v = trunc w v.
+Proof. reflexivity. Qed.
+
 Lemma And2_char w a b : And2_m w a b = trunc w (Z.land a b).
-Proof. reflexivity. Qed.
+Proof. first [ reflexivity | unfold And2_m, And2_propagate; norm_masks; close_comm ]. Qed.
 Lemma Or2_char w a b : Or2_m w a b = trunc w (Z.lor a b).
-Proof. reflexivity. Qed.
+Proof. first [ reflexivity | unfold Or2_m, Or2_propagate; norm_masks; close_comm ]. Qed.
 Lemma Not_char w a : Not_m w a = trunc w (Z.lnot a).
-Proof. reflexivity. Qed.
+Proof. first [ reflexivity | unfold Not_m, Not_propagate; norm_masks; close_comm ]. Qed.
 Lemma Buf_char w a : Buf_m w a = trunc w a.
-Proof. reflexivity. Qed.
+Proof. first [ reflexivity | unfold Buf_m, Buf_propagate; norm_masks; close_comm ]. Qed.
 Lemma Constant_char w c : Constant_m w c = trunc w c.
-Proof. reflexivity. Qed.
+Proof. first [ reflexivity | unfold Constant_m, Constant_propagate; norm_masks; close_comm ]. Qed.
 Lemma Sub_char w a b : 0 <= w -> Sub_m w a b = trunc w (a - b).
-Proof. intros. unfold Sub_m, Sub_propagate. cbv zeta. first [ apply (trunc_idem w (a - b)); lia | reflexivity ]. Qed.
+Proof. intros. unfold Sub_m, Sub_propagate. norm_masks. close_comm. Qed.
 
 Lemma Bit_char w i a : 0 <= i -> Bit_m w i a = trunc w (bit a i).
-Proof. intros. rewrite <- bitZ_bit by lia. reflexivity. Qed.
+Proof.
+  intros. rewrite <- bitZ_bit by lia. rewrite bitZ_odd.
+  unfold Bit_m, Bit_propagate. norm_masks. norm_lsb. reflexivity.
+Qed.
 Lemma Bit_char1 i a : 0 <= i -> Bit_m 1 i a = bit a i.
 Proof. intros. rewrite Bit_char by lia. apply fits_trunc; [lia|]. apply is_bit_fits1, bit_is_bit. Qed.
 
+(* one put per branch or one put after the branches, the condition written with & 1 / % 2 / == 1 / inverted *)
 Lemma Mux2_char w sel s0 s1 : Mux2_m w sel s0 s1 = trunc w (if Z.odd sel then s1 else s0).
 Proof.
-  unfold Mux2_m, Mux2_propagate. cbv zeta. rewrite ?land_1_odd, ?Zmod_odd.
+  unfold Mux2_m, Mux2_propagate. norm_masks. unfold py_truth. norm_lsb.
   destruct (Z.odd sel); reflexivity.
 Qed.
 
+Lemma trunc_0 w : 0 <= w -> trunc w 0 = 0.
+Proof. intros. apply trunc_small; [lia|]. pose proof (pow2_pos w); lia. Qed.
+Lemma trunc_allones w : 0 <= w -> trunc w (Z.shiftl 1 w - 1) = 2 ^ w - 1.
+Proof.
+  intros. change (Z.shiftl 1 w - 1) with (mask w). rewrite mask_pow by lia.
+  apply trunc_small; [lia|]. pose proof (pow2_pos w); lia.
+Qed.
 Lemma Repeat_char w i : 0 <= w -> Repeat_m w i = if i =? 0 then 0 else 2 ^ w - 1.
 Proof.
-  intros. cbv beta iota zeta delta [Repeat_m Repeat_propagate py_truth].
-  destruct (i =? 0); cbv beta iota delta [negb]; change (Wire_put w ?v) with (trunc w v).
-  - apply trunc_small; [lia|]. pose proof (pow2_pos w); lia.
-  - change (py_shl 1 w - 1) with (mask w). rewrite <- mask_pow by lia.
-    apply trunc_small; [lia|]. rewrite mask_pow by lia. pose proof (pow2_pos w); lia.
+  intros. unfold Repeat_m, Repeat_propagate. norm_masks. unfold py_truth.
+  destruct (i =? 0); cbv beta iota delta [negb]; rewrite ?trunc_0, ?trunc_allones by lia; reflexivity.
 Qed.
 
+(* mask written with & or with %; the number of bits through any arithmetic expression equal to hi - lo + 1 *)
 Lemma Range_char wr hi lo a : 0 <= lo <= hi -> Range_m wr hi lo a = trunc wr (range_spec hi lo a).
 Proof.
-  intros. unfold Range_m, Range_propagate, range_spec. cbv zeta.
-  change (Wire_put wr ?v) with (trunc wr v). f_equal. unfold py_shl, py_shr.
-  match goal with |- Z.land _ (Z.shiftl 1 ?n - 1) = _ => try (replace n with (hi - lo + 1) by lia) end.
-  change (Z.shiftl 1 (hi - lo + 1) - 1) with (mask (hi - lo + 1)).
-  rewrite mask_ones, Z.land_ones, shiftr_div by lia. reflexivity.
+  intros. unfold Range_m, Range_propagate, range_spec. norm_masks. f_equal.
+  rewrite (mod_pow_trunc _ (hi - lo + 1)) by lia. rewrite shiftr_div by lia.
+  match goal with |- trunc ?n _ = trunc _ _ => replace n with (hi - lo + 1) by lia end.
+  reflexivity.
+Qed.
+
+(* bit split: the same loop body for both orders *)
+Lemma BitsLSBF_char wa lws a : BitsLSBF_propagate wa lws a = map (fun i => trunc (getZ lws i) (bitZ a i)) (seqZ 0 wa).
+Proof.
+  unfold BitsLSBF_propagate. cbv zeta. apply map_ext. intros i. rewrite bitZ_odd. norm_masks. norm_lsb. reflexivity.
+Qed.
+Lemma BitsMSBF_char wa lws a : BitsMSBF_propagate wa lws a = map (fun i => trunc (getZ lws i) (bitZ a i)) (seqZ 0 wa).
+Proof.
+  unfold BitsMSBF_propagate. cbv zeta. apply map_ext. intros i. rewrite bitZ_odd. norm_masks. norm_lsb. reflexivity.
 Qed.
 
 Lemma seqZ_in a b i : In i (seqZ a b) -> a <= i < b.
